@@ -205,6 +205,30 @@ theorem parse_render_indirect_partial (env : Env R) (hd : env.decrypt = none) (f
   exact parse_indirect_spelling_partial env hd v tv h8 hk hu hdepth hsz [] a g1 b g2 g3 g4 (g5 ++ tail) id gen pre.length fuel
     Gap.nil h1 h2 h3 h4 h5 h6 hid hgen h7 h9 hs h11 h12 h13 hfuel Flags.any (any_allows v)
 
+/-- **Headline for stream objects**: `parse_indirect_object ∘ renderIndirect = id` for `n g obj << … >> stream … endstream
+    endobj` as the printer writes it (any gaps and comments, LF or CR LF after the keyword): the dictionary is read back
+    exactly and the returned `file_range` covers exactly the data. -/
+theorem parse_render_stream_partial (env : Env R) (hd : env.decrypt = none) (fmt : R → List UInt8) (info : Dict R)
+    (data : List UInt8) (id gen : Nat) (tail : List UInt8) (tape : List Nat) (hr : PdfSpec.RenderableE fmt env.parseReal info)
+    (hk : KeysDistinctE info) (hnd : (keysOf info).Nodup) (hu : namesUtf8E info = true) (hlen : LengthIs env info data.length)
+    (hdepth : 1 + vdepthE info ≤ maxDepth) (hid : id ≤ 18446744073709551615) (hgen : gen ≤ 18446744073709551615) :
+    ∃ objText rest, (PdfSpec.renderIndirect fmt id gen (.stream info (.pending data)) tail tape).1 = objText ++ rest ∧
+      ∀ {buf : Buf}, buf.size ≤ 2147483647 → ∀ (pre : List UInt8) (fuel : Nat),
+        buf.toList = pre ++ (PdfSpec.renderIndirect fmt id gen (.stream info (.pending data)) tail tape).1 →
+        2 + needE info ≤ fuel →
+        ∃ dataPos, parseIndirectObject env buf fuel pre.length Flags.any =
+            .ok (((id, gen), streamAt env info (id, gen) dataPos data.length), pre.length + objText.length) ∧
+          slice buf dataPos (dataPos + data.length) = data := by
+  obtain ⟨a, g1, b, g2, g3, tv, g4, g5, e, h1, h2, h3, h4, h5, h6, h7, h8, h9, h10, h11, h13⟩ :=
+    PdfSpec.renderIndirect_stream_spec fmt env.parseReal id gen info data tail hr tape
+  refine ⟨[] ++ a ++ g1 ++ b ++ g2 ++ kwObj ++ g3 ++ tv ++ g4 ++ kwEndobj, g5 ++ tail, e, ?_⟩
+  intro buf hsz pre fuel hbuf hfuel
+  have hs : Suffix buf pre.length ([] ++ a ++ g1 ++ b ++ g2 ++ kwObj ++ g3 ++ tv ++ g4 ++ kwEndobj ++ (g5 ++ tail)) := by
+    rw [e] at hbuf
+    exact suffix_of_toList hbuf
+  exact parse_stream_spelling_partial env hd info data tv h8 hk hnd hu hlen hsz [] a g1 b g2 g3 g4 (g5 ++ tail) id gen pre.length
+    fuel Gap.nil h1 h2 h3 h4 h5 h6 hid hgen h7 h9 h10 hs h13 hfuel hdepth Flags.any (by decide)
+
 /-- **Headline for sequences**: a sequence of objects as the printer writes it (`renderSeq`) is parsed back, by as
     many consecutive `parse_with_lexer` calls as there are objects, to exactly these values, each call stopping
     right after its own object's text. -/
